@@ -95,6 +95,7 @@ fn run_actions<'a, 'b: 'a, 'i: 'b>(
     lexer: &'b dyn NonStreamingLexer<'i, LT>,
     nprods: usize,
     recov: bool,
+    cost: &'a dyn Fn(TIdx<u32>) -> u8,
     log: &'a RefCell<Vec<Event>>,
 ) -> Result<(Option<Val>, Vec<PErr>), String> {
     let mut boxed: Vec<Box<AFD<'a, 'b, 'i>>> = Vec::with_capacity(nprods);
@@ -115,7 +116,8 @@ fn run_actions<'a, 'b: 'a, 'i: 'b>(
     let refs: Vec<&AFD<'a, 'b, 'i>> = boxed.iter().map(|f| &**f).collect();
     lrpar::verif::set_recovery_budget_ms(Some(3_600_000));
     lrpar::verif::set_recovery_step_budget(Some(4000));
-    let pb = RTParserBuilder::<u32, LT>::new(grm, st).recoverer(if recov { RecoveryKind::CPCTPlus } else { RecoveryKind::None });
+    // (costs set BEFORE the recoverer here; parse_tree uses either order)
+    let pb = RTParserBuilder::<u32, LT>::new(grm, st).term_costs(cost).recoverer(if recov { RecoveryKind::CPCTPlus } else { RecoveryKind::None });
     let r = guarded(|| pb.parse_actions(lexer, &refs, PARAM));
     lrpar::verif::set_recovery_budget_ms(None);
     lrpar::verif::set_recovery_step_budget(None);
@@ -143,7 +145,7 @@ impl Check for C08 {
         tier.sz(1600, 20000)
     }
     fn required_counters(&self, _t: Tier) -> Vec<&'static str> {
-        vec!["action_invocations", "empty_yield_reductions", "reductions_with_empty_first_child", "parses_through_repair_replay", "trees_compared_with_parse_map", "spans_checked"]
+        vec!["action_invocations", "empty_yield_reductions", "reductions_with_empty_first_child", "parses_through_repair_replay", "trees_compared_with_parse_map", "spans_checked", "repair_sets_compared_between_modes", "inputs_with_faulty_lexemes_from_the_lexer"]
     }
     fn run_case(&self, seed: u64, idx: u64, _tier: Tier) -> CaseOut {
         let mut out = CaseOut::new();
@@ -188,12 +190,15 @@ impl Check for C08 {
                 sample_sentence(&rc.ag, &mut rng, rc.ag.start, d).filter(|s| s.len() <= 30).unwrap_or_default()
             };
             let toks: Vec<TIdx<u32>> = inp.iter().map(|t| b.tok[*t]).collect();
-            let si = syn_input(&toks, &mut rng, true);
-            let detail = |x: String| json!({"grammar": b.src, "input": inp.iter().map(|t| rc.ag.tokens[*t].name.clone()).collect::<Vec<_>>(), "text": si.text, "recovery": recov, "obs": x});
+            let si = if k >= 6 { out.count("inputs_with_faulty_lexemes_from_the_lexer", 1); syn_input_with_faulty_lexemes(&toks, &mut rng) } else { syn_input(&toks, &mut rng, true) };
+            let costs = rc.costs.clone();
+            let cost = |t: TIdx<u32>| -> u8 { b.tidx_to_ag[usize::from(t)].map(|a| costs[a]).unwrap_or(1) };
+            let detail = |x: String| json!({"grammar": b.src, "input": inp.iter().map(|t| rc.ag.tokens[*t].name.clone()).collect::<Vec<_>>(), "text": si.text, "recovery": recov, "token_costs": rc.ag.tokens.iter().zip(rc.costs.iter()).map(|(t, c)| json!([t.name, c])).collect::<Vec<_>>(), "obs": x});
             // run with logging actions
             let log: RefCell<Vec<Event>> = RefCell::new(vec![]);
             let lexer = si.lexer();
-            let res = run_actions(grm, &rc.st, &lexer, nprods, recov, &log);
+            let t_before = lrpar::verif::timeouts_observed();
+            let res = run_actions(grm, &rc.st, &lexer, nprods, recov, &cost, &log);
             out.evals += 1;
             let (val, errs) = match res {
                 Ok(x) => x,
@@ -258,8 +263,9 @@ impl Check for C08 {
                     if y.empty_before_first {
                         out.count("reductions_with_empty_first_child", 1);
                     }
+                    // (inserted lexemes are the zero-length ones; a faulty flag alone - a lexer may hand over faulty lexemes of real length - does not make a lexeme "not matched input")
                     let mut accepted = vec![(y.leaves[0].span().start(), y.leaves[y.leaves.len() - 1].span().end())];
-                    let real: Vec<&Lx> = y.leaves.iter().filter(|l| !l.faulty()).collect();
+                    let real: Vec<&Lx> = y.leaves.iter().filter(|l| l.span().len() > 0).collect();
                     if real.len() != y.leaves.len() && !real.is_empty() {
                         let alt = (real[0].span().start(), real[real.len() - 1].span().end());
                         accepted.push(alt);
@@ -295,9 +301,21 @@ impl Check for C08 {
                     let t_actions = tree_of(&log, v.id);
                     lrpar::verif::set_recovery_budget_ms(Some(3_600_000));
                     lrpar::verif::set_recovery_step_budget(Some(4000));
-                    let r2 = guarded(|| parse_tree(grm, &rc.st, &si, if recov { RecoveryKind::CPCTPlus } else { RecoveryKind::None }, &|_| 1));
+                    let r2 = guarded(|| parse_tree(grm, &rc.st, &si, if recov { RecoveryKind::CPCTPlus } else { RecoveryKind::None }, &cost));
                     lrpar::verif::set_recovery_budget_ms(None);
                     lrpar::verif::set_recovery_step_budget(None);
+                    // the two modes are the same parser with the same settings: the first error's repair SET is the same
+                    if let Ok((_, errs2)) = &r2 {
+                        if lrpar::verif::timeouts_observed() == t_before {
+                            let set_of = |es: &Vec<PErr>| -> Option<std::collections::BTreeSet<String>> { es.first().and_then(|e| match e { lrpar::LexParseError::ParseError(pe) => Some(pe.repairs().iter().map(|s| format!("{s:?}")).collect()), _ => None }) };
+                            if let (Some(a), Some(c)) = (set_of(&errs), set_of(errs2)) {
+                                out.count("repair_sets_compared_between_modes", 1);
+                                if a != c {
+                                    out.violate("repair-sets-differ-between-modes", &[], format!("the first error's repair sequences differ between the action run ({} sequences) and the generic parse-tree run ({} sequences) of the same builder settings", a.len(), c.len()), detail(format!("actions: {a:?} generic: {c:?}")));
+                                }
+                            }
+                        }
+                    }
                     if let Ok((Some(t2), errs2)) = r2 {
                         let firsts = |es: &Vec<PErr>| -> Vec<String> { es.iter().map(|e| match e { lrpar::LexParseError::ParseError(pe) => format!("{:?}", pe.repairs().first()), _ => String::new() }).collect() };
                         if firsts(&errs) == firsts(&errs2) {
